@@ -16,6 +16,7 @@ BUILDS = {
     "ct-int128struct": ["-O2", "-DUSE_FORCE_WIDEMUL_INT128_STRUCT=1"],
     "ct-noasm": ["-O2"],
     "ct-noasm-O1-clang": ["-O1"],
+    "ct-default-O2-clang": ["-O2", "-DUSE_ASM_X86_64=1"],    # the second installed compiler at the shipped optimisation level
 }
 
 
@@ -51,7 +52,7 @@ def main():
     run = Run(PID, a.tier, level="exploration")
     thorough = a.tier == "thorough"
     # quick: the shipped configuration, the 32-bit-limb one and the 64-bit C (no asm) one - the three scalar/field code bases
-    names = ["ct-default", "ct-int64", "ct-noasm"] + (["ct-int128struct", "ct-noasm-O1-clang"] if thorough else [])
+    names = ["ct-default", "ct-int64", "ct-noasm", "ct-default-O2-clang"] + (["ct-int128struct", "ct-noasm-O1-clang"] if thorough else [])
     exes = build_all(names)
     env = dict(os.environ)
     env.pop("LD_PRELOAD", None)
